@@ -2903,6 +2903,7 @@ bn_calc_naf(bn_p bn, size_t wnd_bits, size_t naf_arr_size, int8_t *naf_arr,
 	register bn_digit_t mask;
 	register int8_t itm;
 	register uint8_t sign_bit;
+	bn_digit_t crr = 0;
 
 	if (NULL == bn || 2 > wnd_bits || NULL == naf_arr)
 		return (EINVAL);
@@ -2941,7 +2942,7 @@ bn_calc_naf(bn_p bn, size_t wnd_bits, size_t naf_arr_size, int8_t *naf_arr,
 			}
 #endif
 			if (itm < 0) {
-				bn_add_digit(&tm, (bn_digit_t)-itm, NULL);
+				bn_add_digit(&tm, (bn_digit_t)-itm, &crr);
 			} else {
 				bn_sub_digit(&tm, (bn_digit_t)itm, NULL);
 			}
@@ -2950,6 +2951,11 @@ bn_calc_naf(bn_p bn, size_t wnd_bits, size_t naf_arr_size, int8_t *naf_arr,
 			naf_arr[i] = 0;
 		}
 		bn_r_shift(&tm, 1); // >> 1
+		if (0 != crr) { /* Carry out of tm: it is the top bit after shift. */
+			BN_RET_ON_ERR(bn_bit_set(&tm,
+			    ((tm.count * BN_DIGIT_BITS) - 1), 1));
+			crr = 0;
+		}
 		i ++;
 	}
 	memset(&naf_arr[i], 0x00, (naf_arr_size - i));
